@@ -31,7 +31,7 @@ func apiDocs() []string {
 		`[1,2,3]`, `[]`, `{}`, `null`, `1`, `"s"`, `true`,
 		`{"a":1,"b":2}`, `{"a":{"c":1},"b":{"c":2}}`, `[{"a":0},{"a":1}]`, `[{"a":1,"b":2},{"a":2,"b":2},{"b":1}]`,
 		`{"a":[[1,2],[3]],"b":[4]}`, `{"a":1,"list":[10,20]}`, `{"a":2,"list":[10,20]}`, `{"x":[{"a":"s"},{"a":1.5},{"a":null},{"a":true},{"a":[1]},{"a":{"b":1}}]}`,
-		`{"a":{"b":{"c":[1,{"d":2}]}},"e":[{"f":1},{"f":2}]}`, `[[1,2],[3,4],[]]`, `{"b":"x","a":"y","c":{"b":1,"a":2}}`,
+		`{"a":{"b":{"c":[1,{"d":2}]}},"e":[{"f":1},{"f":2}]}`, `[[1,2],[3,4],[]]`, `[{"a":[1,2]},{"a":{"x":9}}]`, `[{"a":{"x":9}},{"a":[1,2]},{"a":[[3]]}]`, `{"name":"n","items":[1,2,3]}`, `{"b":"x","a":"y","c":{"b":1,"a":2}}`,
 		`[{"a":1e400},{"a":1}]`, `{"strict":false,"items":[{"ok":true,"n":1},{"ok":false,"n":5},{"n":7}]}`, `{"want":2,"items":[{"v":1},{"v":2},{"v":3}]}`, `{"items":[{"v":1},{"v":2}]}`, `{"want":5,"items":[{"v":1}]}`,
 		`{"ref":[1,2],"list":[{"v":[1,2]},{"v":3}]}`, `[0,1,2,3,4]`, `[0,1,2,3,4,5,6,7,8,9,10,11,12]`, `[0,1,2,3,4,5,6,7,8,9,10,11,12,13,14,15,16,17,18,19,20,21,22,23,24,25,26,27,28,29,30,31,32,33,34,35,36,37,38,39,40,41,42,43,44,45,46,47,48,49,50,51,52,53,54,55,56,57,58,59,60,61,62,63,64,65,66,67,68,69,70,71,72,73,74,75,76,77,78,79,80,81,82,83,84,85,86,87,88,89,90,91,92,93,94,95,96,97,98,99]`, `["b0","b1","b2","b3","b4","b5","b6","b7","b8","b9","b10","b11","b12","b13","b14","b15","b16","b17","b18","b19","b20","b21","b22","b23","b24","b25","b26","b27","b28","b29","b30","b31","b32","b33","b34","b35","b36","b37","b38","b39","b40","b41","b42","b43","b44","b45","b46","b47","b48","b49","b50","b51","b52","b53","b54","b55","b56","b57","b58","b59","b60","b61","b62","b63","b64","b65","b66","b67","b68","b69","b70","b71","b72","b73","b74","b75","b76","b77","b78","b79","b80","b81","b82","b83","b84","b85","b86","b87","b88","b89","b90","b91","b92","b93","b94","b95","b96","b97","b98","b99"]`, `{"flag":true,"list":[{"x":1}]}`, `[{"a":1}]`, `{"k1":{"a":1,"b":2},"k2":{"a":3,"b":4},"k3":{"a":5,"b":6}}`, `{"x":[{"a":[{"b":1},{"b":0}]},{"a":[1,2]},{"a":3}]}`,
 	}
@@ -53,6 +53,7 @@ func apiPaths() []string {
 		`$.items[?(2 >= $.want)]`, `$.items[?(2 > $.want)]`, `$.items[?(1 <= $.want)]`, `$.items[?(3 < $.want)]`, `$.list[?(1 >= $.a)]`, `$.list[?(1 < $.a)]`,
 		`$.x[?(@.a[?(@.b > 0)])]`, `$.x[?(@.a[?(@.b > 0)])].a`, `$[?(@.a[?(@ > 0)])]`, `$.x[?(@.a > 0 && @.a[?(@ > 0)])]['a']`, `$.list[?($.flag)]`, `$.list[?(!$.flag)]`, `$.list[?($.flag && @.x == 1)]`, `$[?($[0].a)]`,
 		`$[?(@.a)].*`, `$[?(@.a)]..a`, `$[?(@.a)][?(@ > 0)]`,
+		`$[?(@.a[*])]`, `$[?(@.a.*)]`, `$[?(@.*)]`, `$.x[?(@.a[*])]`, `$.x[?(@.a.*)]`, `$.items[*]`, `$.x[*].a[*]`, `$[?(@[*])]`, `$[?(@.a[0:])]`, `$[?(@.a[0,1])]`,
 		`$[-2:]`, `$[-3:]`, `$[-2:].slow()`, `$[1:].slow()`, `$[-3:]..a`, `$.*.slow()`, `$..a.slow()`, `$[?(@.a)].slow()`, `$[-2:].twice()`, `$[1:3]`, `$[?(@ > 1)]`,
 		`$['a','b'].twice()`, `$['a','b'].collect()`, `$..a.collect()`, `$.zz`, `$.a.zz`, `$[10]`, `$.*.zz`, `$..zz`, `$[?(@.zz)]`, `$.a[0]`, `$[0].a`,
 	}
@@ -218,6 +219,34 @@ func apiCheckUnchanged(t *testing.T) {
 				apiEval(f, d)
 				if after := apiSnapshot(d); after != before {
 					t.Errorf("REPRODUCED: evaluating %q (accessor=%v) changed the document %s into %s", p, acc, before, after)
+					return
+				}
+			}
+		}
+		// the same decoded document through every path in turn: a buffer that kept pointing into the document after one
+		// call would be written by a later one
+		var fs []func(interface{}) ([]interface{}, error)
+		var names []string
+		for _, p := range apiPaths() {
+			if f := apiParse(t, p, cfg); f != nil {
+				fs = append(fs, f)
+				names = append(names, p)
+			}
+		}
+		for _, ds := range apiDocs() {
+			if len(ds) > 400 {
+				continue
+			}
+			d := apiDecode(ds)
+			before := apiSnapshot(d)
+			for i, f := range fs {
+				apiEval(f, d)
+				if after := apiSnapshot(d); after != before {
+					prev := "-"
+					if i > 0 {
+						prev = names[i-1]
+					}
+					t.Errorf("REPRODUCED: after %q (preceded by %q, accessor=%v) the document %s has become %s", names[i], prev, acc, before, after)
 					return
 				}
 			}
@@ -391,6 +420,9 @@ func apiCheckAccessor(t *testing.T) {
 				return
 			}
 			for i := range raw {
+				if n := len(raw); n > 12 && !apiThorough && i > 1 && i != n/2 && i < n-2 {
+					continue // long result lists: the ends and the middle (every accessor in the thorough tier)
+				}
 				d := apiDecode(ds)
 				res, err := acc(d)
 				if err != nil || i >= len(res) {
